@@ -48,9 +48,15 @@ def main(argv=None):
         print(f'ANALYSIS-ERROR unknown property {prop}')
         return 2
     try:
+        if args.tier == 'thorough':
+            from . import paths as _paths
+            _paths.DEFAULT_UNROLL = 3
         res, mod = run_check(prop, args.tier, args.repo, seed)
         if args.tier == 'thorough':
-            from . import selftest
+            from . import bytecheck, selftest, paths as _paths
+            res.stats['unroll'] = _paths.DEFAULT_UNROLL
+            res.stats['bytecode_crosscheck'] = bytecheck.crosscheck(Project(args.repo))
+            _paths.DEFAULT_UNROLL = 2          # the variant matrix runs at the quick-tier bound
             selftest.run(prop, args.repo, seed, res)
         if args.replay:
             return replay(res, args.replay)
